@@ -561,6 +561,38 @@ func (c *lchain) variants(b types.Block) []variant {
 				// C03: revision that rotates the renter key must be signed by the *current* key
 				if rv.Revision.RenterPublicKey != cur.RenterPublicKey {
 					mk("c03.v2-revision-signed-by-new-key", func(rev *types.V2FileContract) {}, c.keyIdx(rv.Revision.RenterPublicKey), hk, "reject")
+					// known finding F12: after this key rotation, a later transaction of the same block renews the contract
+					// under the keys of the accumulator leaf (the old keys): the contract as it currently stands has new keys
+					if pfc := rv.Parent.V2FileContract; pfc.ProofHeight >= c.child() && rv.Revision.ProofHeight >= c.child() {
+						prk, phk := c.keyIdx(pfc.RenterPublicKey), c.keyIdx(pfc.HostPublicKey)
+						total := pfc.RenterOutput.Value.Add(pfc.HostOutput.Value)
+						nt := total.Div64(52).Div64(25).Mul64(25)
+						if !nt.IsZero() {
+							cost := nt.Add(nt.Div64(25))
+							rr := cost
+							if pfc.RenterOutput.Value.Cmp(rr) < 0 {
+								rr = pfc.RenterOutput.Value
+							}
+							hr := cost.Sub(rr)
+							nc := types.V2FileContract{Capacity: pfc.Capacity, Filesize: pfc.Filesize, FileMerkleRoot: pfc.FileMerkleRoot,
+								ProofHeight: c.child() + 3, ExpirationHeight: c.child() + 5,
+								RenterOutput: types.SiacoinOutput{Value: nt.Div64(2), Address: pfc.RenterOutput.Address},
+								HostOutput:   types.SiacoinOutput{Value: nt.Sub(nt.Div64(2)), Address: pfc.HostOutput.Address},
+								RenterPublicKey: pfc.RenterPublicKey, HostPublicKey: pfc.HostPublicKey}
+							c.signContract(&nc, prk, phk)
+							ren := &types.V2FileContractRenewal{NewContract: nc, RenterRollover: rr, HostRollover: hr,
+								FinalRenterOutput: types.SiacoinOutput{Value: pfc.RenterOutput.Value.Sub(rr), Address: pfc.RenterOutput.Address},
+								FinalHostOutput:   types.SiacoinOutput{Value: pfc.HostOutput.Value.Sub(hr), Address: pfc.HostOutput.Address}}
+							if hr.Cmp(pfc.HostOutput.Value) <= 0 {
+								h := c.cs().RenewalSigHash(*ren)
+								ren.RenterSignature, ren.HostSignature = c.keys[prk].SignHash(h), c.keys[phk].SignHash(h)
+								nb := cloneBlock(b)
+								nb.V2.Transactions = append(nb.V2.Transactions, types.V2Transaction{FileContractResolutions: []types.V2FileContractResolution{{Parent: rv.Parent.Copy(), Resolution: ren}}})
+								c.seal(&nb)
+								add("c03.v2-renewal-under-rotated-away-keys", nb, "reject", "F12")
+							}
+						}
+					}
 				} else {
 					mk("c03.v2-revision-signed-by-other-key", func(rev *types.V2FileContract) {}, (rk+1)%4, hk, "reject")
 				}
